@@ -2,7 +2,8 @@
 # usage: seed_regress.sh [-j N] [seed names…]      (default: every directory under /verif/seeded)
 # Replays every stored seeded regression against the check of its property in scratch worktrees of /repo
 # (created under /tmp and removed afterwards; /repo itself is never touched) and writes seeded/RESULTS.tsv:
-#   <seed> <check verdict line>
+#   <seed> <check verdict line> <oracle or broken obligation that fired>
+# (rows of seeds not replayed in this call are kept)
 J=4
 if [ "$1" = "-j" ]; then J="$2"; shift; shift; fi
 cd /verif || exit 2
@@ -21,7 +22,16 @@ one() {
   ( cd "$wt" && git checkout -q -- . && git apply "$d/patch.diff" 2>/dev/null ) || { echo "$name	PATCH-DOES-NOT-APPLY"; return; }
   v=$(cd /verif && JAQALPAQ_REPO="$wt" PYTHONPATH="$wt/src" ./check "$pid" 2>/dev/null | grep -E '^(OK|VIOLATION|INFRASTRUCTURE)' | tail -1)
   ( cd "$wt" && git checkout -q -- . )
-  echo "$name	${v:-NO-VERDICT}"
+  # what fired: the oracle of the failing input, or the broken obligation (read from the replay file just written)
+  w=$(cd /verif && /venv/bin/python -c "
+import json,sys
+try:
+    r=json.load(open('replays/$pid-0-0.json'))
+    print(r.get('oracle') or ('broken: '+'; '.join(str(b[0]) for b in r.get('broken',[])[:2]) + ' corr: '+'; '.join(str(c.get('what')) for c in r.get('correspondence_disagreements',[])[:2])))
+except Exception: print('')
+" 2>/dev/null)
+  case "$v" in VIOLATION*) ;; *) w="";; esac
+  echo "$name	${v:-NO-VERDICT}	$w"
 }
 # N parallel lanes, each with its own worktree
 # all seeds of one property go to the same lane: two checks of one property never run at the same time
@@ -36,7 +46,11 @@ for k in $(seq 1 "$J"); do
   ( while read -r name; do one "$name" "/tmp/sr-wt-$$-$k"; done < "$OUT/lane$k" > "$OUT/res$k" ) &
 done
 wait
-cat "$OUT"/res* | sort > /verif/seeded/RESULTS.tsv
+# merge: rows of the seeds replayed now replace their old rows, all other rows stay
+cat "$OUT"/res* > "$OUT/new"
+touch /verif/seeded/RESULTS.tsv
+awk -F'\t' 'NR==FNR {seen[$1]=1; print; next} !($1 in seen)' "$OUT/new" /verif/seeded/RESULTS.tsv | sort > "$OUT/merged"
+cp "$OUT/merged" /verif/seeded/RESULTS.tsv
 for k in $(seq 1 "$J"); do git -C /repo worktree remove --force "/tmp/sr-wt-$$-$k" >/dev/null 2>&1; done
 rm -rf "$OUT"
 (cd /verif && PYTHONPATH=/verif /venv/bin/python -W ignore -m harness.effects_scan --emit >/dev/null 2>&1; PYTHONPATH=/verif /venv/bin/python -W ignore -m harness.lexer_extract >/dev/null 2>&1)
